@@ -812,6 +812,38 @@ def check_keyed_memo_invalidation(ctx, res: Result, cls: str, rule="E-CACHE"):
             res.ok(rule, mfi.short, norm(a)[:80], f"range-keyed:{attr}", loc(mfi, a))
 
 
+def check_shallow_checkpoint(ctx, res: Result, cls: str, rule="E-CHECKPOINT"):
+    """A checkpoint / snapshot of the tables that is meant to be restored later (`{"_adj": dict(self._adj), ...}`) copies the incidence
+    table ONE level deep: the per-node lists are the live ones, so ids appended to them afterwards survive the "rollback" and later
+    point at whatever hyperedge re-uses the rewound id."""
+    res.rules.setdefault(rule, "a saved copy of an incidence table that may be restored later copies the per-node lists too (never `dict(self._adj)` alone)")
+    tabs = getattr(ctx.interp, "class_tables", {}).get(cls, {}) or {}
+    from .kinds import Dct, Lst, St
+
+    listy = {t for t, k in tabs.items() if isinstance(k, Dct) and isinstance(k.val, (Lst, St))}
+    n = 0
+    for name_, mfi in sorted(ctx.methods(cls).items()):
+        if name_ in ("copy", "__deepcopy__", "__copy__"):
+            continue
+        for d in ast.walk(mfi.node):
+            if not isinstance(d, ast.Dict):
+                continue
+            for k_, v_ in zip(d.keys, d.values):
+                src = None
+                if isinstance(v_, ast.Call) and isinstance(v_.func, ast.Name) and v_.func.id == "dict" and len(v_.args) == 1 and is_self_attr(v_.args[0]):
+                    src = v_.args[0].attr
+                elif isinstance(v_, ast.Call) and isinstance(v_.func, ast.Attribute) and v_.func.attr == "copy" and is_self_attr(v_.func.value) and not v_.args:
+                    src = v_.func.value.attr
+                if src in listy and isinstance(k_, ast.Constant) and k_.value == src:
+                    # restored somewhere: setattr(self, name, value) over a mapping, or self.<src> = <mapping>[...]
+                    restores = any(isinstance(c, ast.Call) and isinstance(c.func, ast.Name) and c.func.id == "setattr" and c.args and isinstance(c.args[0], ast.Name) and c.args[0].id == "self" for m2 in ctx.methods(cls).values() for c in ast.walk(m2.node))
+                    if restores:
+                        n += 1
+                        res.violation(rule, mfi.short, norm(v_)[:60], src, f"the saved state holds `{norm(v_)}` - a one-level copy of {src}: the per-node lists are shared with the live table, so what is appended to them after the checkpoint is still there after the tables are put back (stale ids that later belong to other hyperedges)", loc(mfi, v_))
+    if n == 0:
+        res.ok(rule, cls, "no one-level checkpoint of an incidence table", "scan", ctx.prog.cls(cls).module.relpath)
+
+
 def check_weight_accumulation_guarded(ctx, res: Result, cls: str, rule="P-ACCUM"):
     """Wherever a record's weight is ADDED to (`self._weights[id] += w`) - add_edge on an existing key, a hand-written merge in
     remove_node(keep_edges=True) - the hypergraph must be weighted: in an unweighted one every weight stays 1 (re-insertion is
@@ -983,6 +1015,37 @@ def check_batch_insert(ctx, res: Result, cls: str):
                             bad = i_
                 if isinstance(x, ast.Call) and isinstance(x.func, ast.Attribute) and x.func.attr == "check_edge":
                     bad = i_
+        # ... nor collapsed beforehand: a dict keyed by the (canonical) hyperedge that is built from the batch - `staged[tuple(sorted(edge))]
+        # = ...`, `dict(zip(map(canon, edge_list), weights))` - holds ONE entry per hyperedge.  Feeding add_edge from its items, or
+        # looking the per-item weight / metadata up in it, makes a hyperedge that is listed twice count once (or with its last weight twice)
+        def _edge_keyed_dicts():
+            out = {}
+            for a_ in walk_no_nested(v.fi.node):
+                if isinstance(a_, ast.Assign) and len(a_.targets) == 1 and isinstance(a_.targets[0], ast.Subscript) and isinstance(a_.targets[0].value, ast.Name) and v.enclosing(a_, (ast.For, ast.While)) is not None and not v.tables_of(a_.targets[0].value):
+                    k_ = v.inline(a_.targets[0].slice, depth=2)
+                    if any(isinstance(x, ast.Call) and norm(x.func).split(".")[-1] in ("sorted", "_canon_edge", "_canonical_edge", "_canonical", "tuple") for x in ast.walk(k_)):
+                        out[a_.targets[0].value.id] = a_
+                if isinstance(a_, ast.Assign) and len(a_.targets) == 1 and isinstance(a_.targets[0], ast.Name) and isinstance(a_.value, ast.Call):
+                    vals = [a_.value] + [r_.value for cal in ctx.callees(v.fi, a_.value) for r_ in ast.walk(cal.node) if isinstance(r_, ast.Return) and r_.value is not None]
+                    for val in vals:
+                        if isinstance(val, ast.DictComp) or (isinstance(val, ast.Call) and isinstance(val.func, ast.Name) and val.func.id == "dict" and val.args and isinstance(val.args[0], ast.Call) and isinstance(val.args[0].func, ast.Name) and val.args[0].func.id == "zip"):
+                            ktxt = norm(val.key) if isinstance(val, ast.DictComp) else norm(val.args[0].args[0]) if val.args[0].args else ""
+                            if "edge" in ktxt or "canon" in ktxt:
+                                out[a_.targets[0].id] = a_
+            return out
+
+        dd = _edge_keyed_dicts()
+        collapsed = None
+        if dd:
+            it_names = {x.id for x in ast.walk(lp.iter) if isinstance(x, ast.Name)} if isinstance(lp, ast.For) else set()
+            if it_names & set(dd):
+                collapsed = (norm(lp.iter)[:50], sorted(it_names & set(dd))[0])
+            for a_ in list(c.args) + [k.value for k in c.keywords]:
+                for x in ast.walk(a_):
+                    if (isinstance(x, ast.Subscript) and isinstance(x.value, ast.Name) and x.value.id in dd) or (isinstance(x, ast.Call) and isinstance(x.func, ast.Attribute) and x.func.attr == "get" and isinstance(x.func.value, ast.Name) and x.func.value.id in dd):
+                        collapsed = collapsed or (norm(x)[:50], x.value.id if isinstance(x, ast.Subscript) else x.func.value.id)
+        if collapsed is not None:
+            res.violation("P-BATCH", f, norm(c)[:100], "per-item:not-collapsed", f"add_edge is fed from `{collapsed[0]}`, and `{collapsed[1]}` is a dict keyed by the hyperedge that is built from the batch: a hyperedge listed twice in one batch (in any node order) has ONE entry there, so its weights are not summed as two add_edge calls would", _where(v, c))
         if bad is not None:
             res.violation("P-BATCH", f, norm(bad.test)[:120], "per-item", "the batch skips (or treats differently) an item whose record already exists: repeating add_edge would still accumulate its weight and replace its metadata, so add_edges no longer agrees with add_edge", _where(v, bad))
         else:
